@@ -5,12 +5,32 @@ import graphs as gr
 PROP = "C12"
 RULE = ("every acyclic ADMG(n) and ancestral graph with undirected edges ANC(n) (all per-pair edge kinds), "
         "n<=3 quick / n<=4 thorough (quick adds DAG(4) and all bidirected-only / undirected-only graphs on 4 nodes), plus seeded "
-        "random graphs n<=8; every graph also as a MixedEdgeGraph from which edgeless layers are absent (all subsets); per graph all "
+        "random graphs n<=8 and 60/600 seeded 5-6 node ancestral graphs with an undirected chain (quick also all ANC(4) with an "
+        "undirected edge); every graph also as a MixedEdgeGraph from which edgeless layers are absent (all subsets); per graph all "
         "disjoint (X,Y,Z) with |X|,|Y|<=2 for the criterion (20 sampled for random graphs); plain DAGs also against "
         "networkx.moral_graph; distinct by (canonical graph, layers present); non-trivial = the moral graph has an edge that is "
         "not an edge of the input skeleton")
 EXHAUSTIVE = {"quick": "all ADMG(n), ANC(n) n<=3, DAG(4), bidirected-only and undirected-only graphs on 4 nodes; all layer-absent variants", "thorough": "all ADMG(n), ANC(n) n<=4; all layer-absent variants"}
-TRUSTED = ["networkx compose / connected_components / predecessors taken at face value"]
+TRUSTED = ["networkx compose / connected_components / predecessors / node_connected_component taken at face value",
+           "Graph/MSep.v (definition of m-separation by m-connecting paths) and Graph/MSepDec.v (msep_dec reflects it, proved)"]
+LEVEL_TEXT = ("Coq theorems about the executable model (moral_adj / moral_edges / moral_sep), all closed under the global context. "
+              "UNBOUNDED (all graphs, all sizes): moral_adjacency (adjacent in the moral graph <-> joined by an edge or by a simple "
+              "path whose inner nodes are all colliders), moral_nodes / moral_edges_spec / moral_graph_adjacent (exactly G's nodes; "
+              "the edge list is that relation), moral_dag_is_nx (no bidirected edge: skeleton + married co-parents = "
+              "networkx.moral_graph). BOUNDED by kernel computation (vm_compute): the separation criterion "
+              "msep g X Y Z <-> Z is a vertex cut in the moral graph of the anterior subgraph, for ALL graphs of the C01 domain on "
+              "<= 3 nodes (moral_criterion_bounded_3) and for all graphs on 4 nodes with at most one edge per pair incl. all DAGs "
+              "(moral_criterion_bounded_anc_4 / _dag_4), all pairwise disjoint X, Y, Z. NOT proved for all sizes: the criterion "
+              "(full statement kept in C12/Spec.v, moral_criterion_stmt); 4-node graphs with a directed and a bidirected edge on one "
+              "pair and all larger graphs are covered by correspondence only (extracted oracle msep_dec up to n=5, "
+              "implementation's own m_separated beyond). The implementation is tied to the model by differential correspondence "
+              "on every run (tie K).")
+LEVEL_NOTE = ("the model is the repaired rule (clique on district + its parents), /repo carries the fix f7202d6; statements quantify over "
+              "sorted duplicate-free node subsets (Base.ListSet.sublists) of 0..n-1 and kind lists (C12/Enum.v); the circle layer is "
+              "not part of the moral graph (domain of C01 has none)")
+TECHNIQUE = ("Coq proof (model = spec by path surgery and closure lemmas, unbounded) + bounded kernel computation over a verified "
+             "finite enumeration (criterion, n<=3, n=4 single-edge class) + extracted-model correspondence (OCaml extraction, "
+             "vm_compute spot checks)")
 SPOT_N = 25
 ASSUMPTIONS = ["default edge-type names", "int node labels (label families are C15's job)"]
 
@@ -61,6 +81,32 @@ def with_layers(case, g, full=True):
         yield c
 
 
+def und_chain_graph(rng, n):
+    """ancestral graph on n nodes with an undirected chain u1 - ... - uk (k = 3..n-1, plus an occasional chord); the remaining
+    nodes carry random ADMG kinds among themselves and receive directed edges from chain nodes (no arrowhead at a chain node)"""
+    nodes = list(range(n))
+    rng.shuffle(nodes)
+    k = rng.randint(3, max(3, n - 1))
+    chain, rest = nodes[:k], nodes[k:]
+    g = {"V": list(range(n)), "D": [], "B": [], "U": [], "C": []}
+    for a, b in zip(chain, chain[1:]):
+        g["U"].append(sorted([a, b]))
+    if k >= 4 and rng.random() < 0.3:
+        g["U"].append(sorted([chain[0], chain[2]]))
+    for i, a in enumerate(rest):
+        for b in rest[i + 1:]:
+            r = rng.random()
+            if r < 0.3:
+                g["D"].append([a, b])
+            elif r < 0.45:
+                g["B"].append(sorted([a, b]))
+    for u in chain:
+        for v in rest:
+            if rng.random() < 0.3:
+                g["D"].append([u, v])
+    return g, chain, rest
+
+
 def gen_cases(tier, rng):
     nmax = 3 if tier == "quick" else 4
     for n in range(1, nmax + 1):
@@ -76,6 +122,17 @@ def gen_cases(tier, rng):
         for kinds, name in ((["none", "<->"], "bi4"), (["none", "--"], "un4")):
             for g in gr.enum_class(4, kinds):
                 yield from with_layers({"kind": name, "g": g, "qs": queries(g["V"]), "oracle": True}, g)
+        # every 4-node ancestral graph with an undirected edge (the criterion goes through _anterior)
+        for g in gr.enum_anc(4):
+            if g["U"]:
+                yield from with_layers({"kind": "anc4", "g": g, "qs": queries(g["V"]), "oracle": True}, g, full=False)
+    for i in range(60 if tier == "quick" else 600):
+        n = rng.randint(5, 6)
+        g, chain, rest = und_chain_graph(rng, n)
+        qs = queries(g["V"], rng=rng, limit=12)
+        for y in ([chain[-1]] + rest[-1:]):
+            qs.append([[chain[0]], [y], []])
+        yield from with_layers({"kind": "undchain", "g": g, "qs": qs, "oracle": True}, g, full=False)
     for i in range(300 if tier == "quick" else 3000):
         n = rng.randint(4, 8)
         r = rng.random()
